@@ -585,6 +585,10 @@ impl World {
 		if self.skip_model_oracles && (oracle == O_RESULT || oracle == O_VIEW) {
 			return;
 		}
+		if oracle == O_ROUNDTRIP {
+			// the same fact decides C12 for the network graph ("equal under the library's own equality")
+			self.out.violate("C12", "C12-d network graph differs after write/read", self.step, msg.clone());
+		}
 		self.out.violate(PROP, oracle, self.step, msg);
 		self.dead = true;
 	}
